@@ -375,3 +375,67 @@ NSE1 = _nse("int-r1", "int")
 NSE2 = _nse("dict-r1", "map:int")
 NSE3 = _nse("int-2axes", "int", 2)
 NSE4 = _nse("dict-2axes", "map:int", 2)
+
+
+# ---------------------------------------------------------------------------
+# what a block that is empty along a reduced axis contributes to min / max / arg-reductions (C18)
+# ---------------------------------------------------------------------------
+RC_COMMON = "dask_array/reductions/_common.py"
+
+
+def _ext_empty_like(ex, st, args, kwargs, node):
+    """np.empty_like(x, shape=s): an array of shape s (contents irrelevant: it has no elements along a reduced axis)"""
+    o = ex.fresh_value("obj:Blk", "empty")
+    o.fields["shape"] = kwargs["shape"]
+    return o
+
+
+def _no_candidates(axis_kind, axes):
+    @contract(f"{RC_COMMON}::_no_candidates", spec=f"r2-{axis_kind}", props=["C18"])
+    class no_candidates:
+        """a 2-D block reduced over `axes`: None (NumPy reduces the block itself) exactly when no reduced axis is empty;
+        otherwise an array with length 0 along every empty reduced axis, 1 (as with keepdims) along the other reduced axes,
+        and the block's own length along the kept axes -- so the partial results concatenate along the reduced axes and the
+        empty block contributes no candidate"""
+        params = {"x": "obj:Blk", "axis": {"none": "none", "int0": "int", "int1": "int", "tuple01": "tup:int,int", "neg1": "int"}[axis_kind]}
+        result = "obj:Blk"
+        fields = {"Blk": {"shape": "tup:int,int", "ndim": "const"}}
+        consts = {"x.ndim": 2}
+        externals = {"np.empty_like": _ext_empty_like}
+
+        def requires(x, axis):
+            sh = x.get("shape")
+            pre = [S.item(sh, 0) >= 0, S.item(sh, 1) >= 0]
+            if axis_kind == "int0":
+                pre.append(axis == 0)
+            elif axis_kind == "int1":
+                pre.append(axis == 1)
+            elif axis_kind == "neg1":
+                pre.append(axis == -1)
+            elif axis_kind == "tuple01":
+                pre += [S.item(axis, 0) == 0, S.item(axis, 1) == 1]
+            return S.And(pre)
+
+        def ensures(result, x, axis):
+            from pyvc.spec import Opt
+            sh = x.get("shape")
+            some_empty = S.Or([S.item(sh, a) == 0 for a in axes])
+            if isinstance(result, Opt):
+                return {"none-exactly-when-no-reduced-axis-is-empty": S.Not(some_empty)}
+            out = {"array-only-when-a-reduced-axis-is-empty": some_empty}
+            rs = result.fields["shape"]
+            for a in range(2):
+                n = S.item(sh, a)
+                want = S.If(n == 0, 0, 1) if a in axes else n
+                out[f"axis-{a}-length"] = S.val(S.item(rs, a)) == want
+            return out
+
+    no_candidates.__name__ = "no_candidates_" + axis_kind
+    return no_candidates
+
+
+NC0 = _no_candidates("none", (0, 1))
+NC1 = _no_candidates("int0", (0,))
+NC2 = _no_candidates("int1", (1,))
+NC3 = _no_candidates("tuple01", (0, 1))
+NC4 = _no_candidates("neg1", (1,))
